@@ -470,8 +470,13 @@ fn store_field(mid: usize, src_raw: usize, src_id: u64, f: usize, val_raw: usize
     let target = obj::raw_to_ref(val_raw);
     let satb = with_world(|w| w.plan.barrier_satb);
     let update_model = |w: &mut World| {
+        let mut unmoved_holder = false;
         if let Some(o) = w.objs.get_mut(&src_id) {
             o.fields[f] = val_id;
+            unmoved_holder = matches!(o.sem, SEM_IMMORTAL | SEM_NONMOVING);
+        }
+        if unmoved_holder && val_id != 0 {
+            w.count("ref_stored_in_immortal_or_nonmoving");
         }
     };
     if satb || mode == 1 || target.is_none() {
